@@ -642,18 +642,30 @@ def check(pid, tier, seed):
         if still:
             out_lines.append("KNOWN-FINDING: property=%s %s" % (pid, what))
 
-    def impl_fails(s2):
+    def signature(why):
+        # the kind of failure: the message with numbers and byte strings blanked
+        return re.sub(r"(b'[^']*'|b\"[^\"]*\"|x[0-9a-f]+|\d+)", "#", str(why))[:70]
+
+    def impl_fails(s2, want=None):
         o, hg = run_sharded(impl, [s2], 30, "min")
         if hg or o[0] is None:
-            return True
-        return len(mod.oracle(s2, o[0])) > 0 and all(
-            not (isinstance(f, tuple) and f[1] in known_classes) for f in mod.oracle(s2, o[0]))
+            return want is None or "hang" in want or "no result" in want
+        try:
+            fs = mod.oracle(s2, o[0])
+        except Exception:
+            return False      # the shortened script is not one the oracle understands
+        fs = [f for f in fs if not (isinstance(f, tuple) and f[1] in known_classes)]
+        if not fs:
+            return False
+        first = fs[0][0] if isinstance(fs[0], tuple) else fs[0]
+        return want is None or signature(first) == want
 
     if oracle_failures:
         idx, why, _ = oracle_failures[0]
         s = scripts[idx]
         try:
-            s_min = minimise(s, impl_fails) if impl_obs[idx] is not None else s
+            want_sig = signature(why)
+            s_min = minimise(s, lambda s2: impl_fails(s2, want_sig)) if impl_obs[idx] is not None else s
         except Exception:
             s_min = s
         o_min, _ = run_sharded(impl, [s_min], 30, "rep")
